@@ -158,6 +158,7 @@ Theorem C01_vm_call_exact_enters_frame : forall prog base g up args f rest store
   nth_error (fn_code fn) (fr_pc f) = Some (ICall n) ->
   N.to_nat n = length args ->
   get_fn prog g = Some callee -> fn_args callee = length args ->
+  fr_off f <= length base ->
   step prog {| st_stack := base ++ MClo g up :: args; st_frames := f :: rest;
                st_store := store; st_log := log; st_pending := None |}
   = Next {| st_stack := base ++ MClo g up :: args;
@@ -168,23 +169,22 @@ Theorem C01_vm_call_exact_enters_frame : forall prog base g up args f rest store
 Proof. exact vm_call_exact_enters_frame. Qed.
 Print Assumptions C01_vm_call_exact_enters_frame.
 
-(* `TailCall n` instead of `Call n; Return` reaches the same machine state — partial: for a callee
-   that needs no frame (a built-in applied to exactly its arity). *)
-Theorem C01_tailcall_preserves_result_partial :
-  forall prog base fnval locals e args r log' f caller rest store log fn1 fn2 f2 n,
+(* `TailCall n` instead of `Call n; Return`: the same final outcome (value or error, store, effect
+   log) for EVERY callee — bytecode closure at exact arity, partial application, excess arguments,
+   partial-application values, built-ins — and whatever the callee runs; proved as a simulation
+   between the two stack shapes (VM/MachineTailCall.v).  The frame executing the call has no
+   excess arguments of its own. *)
+From GV Require Import VM.MachineTailCall.
+Theorem C01_tailcall_preserves_result :
+  forall prog base fnval locals callee args f f2 caller rest store log fn1 fn2 n fuel r l,
   get_fn prog (fr_fn f) = Some fn1 -> nth_error (fn_code fn1) (fr_pc f) = Some (ITailCall n) ->
-  fr_off f2 = fr_off f -> fr_excess f2 = false -> fr_excess f = false -> fr_pc f2 = fr_pc f ->
-  get_fn prog (fr_fn f2) = Some fn2 -> nth_error (fn_code fn2) (fr_pc f) = Some (ICall n) ->
-  nth_error (fn_code fn2) (S (fr_pc f)) = Some IReturn ->
-  N.to_nat n = length args -> ext_arity e = length args ->
-  run_ext e args log = (Some (inl r), log') ->
-  fr_off f = S (length base) ->
-  let stack := base ++ fnval :: locals ++ MExt e :: args in
-  let s1 := {| st_stack := stack; st_frames := f :: caller :: rest; st_store := store; st_log := log; st_pending := None |} in
-  let s2 := {| st_stack := stack; st_frames := f2 :: caller :: rest; st_store := store; st_log := log; st_pending := None |} in
-  exists final,
-    final = {| st_stack := base ++ [r]; st_frames := caller :: rest; st_store := store; st_log := log'; st_pending := None |}
-    /\ step prog s1 = Next final
-    /\ (exists mid, step prog s2 = Next mid /\ step prog mid = Next final).
-Proof. exact tailcall_preserves_result_partial. Qed.
-Print Assumptions C01_tailcall_preserves_result_partial.
+  fr_off f = S (length base) -> fr_excess f = false ->
+  get_fn prog (fr_fn f2) = Some fn2 -> nth_error (fn_code fn2) (fr_pc f2) = Some (ICall n) ->
+  nth_error (fn_code fn2) (S (fr_pc f2)) = Some IReturn ->
+  fr_off f2 = S (length base) -> fr_excess f2 = false ->
+  N.to_nat n = length args ->
+  let stack := base ++ fnval :: locals ++ callee :: args in
+  run prog fuel (mk stack (f :: caller :: rest) store log None) = (r, l) -> r <> VOutOfFuel ->
+  exists fuel', run prog fuel' (mk stack (f2 :: caller :: rest) store log None) = (r, l).
+Proof. exact tailcall_preserves_result. Qed.
+Print Assumptions C01_tailcall_preserves_result.
